@@ -34,6 +34,10 @@ pub struct Universe {
     pub ctx: CaseCtx,
 }
 
+pub fn ops_pairs(modules: &[ExtractedModule]) -> Vec<(String, String)> {
+    modules.iter().map(|m| (m.sexp.items()[8].as_str().unwrap_or("").to_string(), m.mod_name.clone())).collect()
+}
+
 pub fn custom_scalars(s: &ASchema) -> Vec<String> {
     s.types.iter().filter_map(|t| if let AType::Scalar { name } = t { Some(name.clone()) } else { None }).collect()
 }
@@ -163,7 +167,20 @@ pub fn build_universe_with(
                     .collect::<Vec<_>>()
             })
             .collect();
-        codes.push(CaseCode { id, prelude: prelude_for(&schema, &opts), tokens, ops, enums, no_serialize });
+        // operations with default values: a function evaluating every `default_*` constructor (kind `defaults`)
+        let mut prelude = prelude_for(&schema, &opts);
+        {
+            let mut calls = Vec::new();
+            for (op, (_, module)) in doc.ops.iter().zip(ops_pairs(&modules).iter()) {
+                for v in op.vars.iter().filter(|v| v.default.is_some()) {
+                    calls.push(format!("{}::Variables::default_{}()", module, v.name));
+                }
+            }
+            if !calls.is_empty() && opts.variables_derives.as_deref().map(|d| d.contains("Deserialize")).unwrap_or(false) {
+                prelude.push_str(&format!("    pub fn defaults_json() -> String {{ serde_json::to_string(&serde_json::json!([{}])).unwrap() }}\n", calls.join(", ")));
+            }
+        }
+        codes.push(CaseCode { id, prelude, tokens, ops, enums, no_serialize });
         cases.push(WCase { id, schema, doc, sdl, qtext, opts, modules, compiled: false, compile_errors: vec![], no_serialize, lenient });
     }
     let build = build_consumer(name, &codes, true, &[]);
